@@ -342,7 +342,117 @@ class InversionOverTheStatesManager(Lemma):
         return (False, {"outside_mask": mask, "store_cap": cap, "p": p})
 
 
-UNITS = [BinarySearchTreeSampler(), HuffmanSampler(), AliasSampler(), InversionSampler(), InversionOverTheStatesManager()]
+class AdaptedBisection1D(FunctionContract):
+    """BinarySearchTreeAdapted1D.sample_with_u (real body, axis of SYMBOLIC length, abstract additive measure MU): the
+    bisection `while left != right` loop under an inductive invariant.  With L0..R0 the half-axis chosen by the first test
+    (left of the origin iff u <= P_left) and u' the uniform reduced to that half:
+        L0 <= left <= right <= R0,   current_p * lambda = u' * lambda - MU(cell_lo(L0), cell_lo(left)),
+        current_p * lambda <= MU(cell_lo(left), cell_hi(right)),   left = L0 or current_p > 0
+    so that at exit the returned state k satisfies  C(k) < u' lambda <= C(k) + MU(cell(k))  with C(k) the mass of the cells
+    L0..k-1: state k is returned exactly on a u-interval of length MU(cell(k)) / lambda = q_k / lambda, never the origin,
+    never a state outside the axis.  Preconditions are the postconditions of the constructor contract (C01
+    AdaptedTree1dInit) and of the intensity contract (lambda = mass of all non-origin cells)."""
+    prop = "C02"
+    target = V + "binarysearchtreeadapted:BinarySearchTreeAdapted1D.sample_with_u"
+    name = "BinarySearchTreeAdapted1D.sample_with_u"
+
+    def __init__(self):
+        from pyvc.interp import LoopSpec
+        from contracts.c01 import cell_lo, cell_hi
+        from contracts.spec_measure import MU
+
+        def half(L, g):
+            o, n, PL = g["o"], g["ax"].length, g["PL"]
+            right_half = L.u > PL
+            return If(right_half, o + 1, 0), If(right_half, n - 1, o - 1), If(right_half, L.u - PL, L.u)
+
+        def inv(L, g):
+            ax, lam = g["ax"], g["lam"]
+            L0, R0, uh = half(L, g)
+            return And(L0 <= L.left, L.left <= L.right, L.right <= R0,
+                       L.current_p * lam == uh * lam - MU(cell_lo(ax, L0), cell_lo(ax, L.left)),
+                       L.current_p * lam <= MU(cell_lo(ax, L.left), cell_hi(ax, L.right)),
+                       Or(L.left == L0, L.current_p > 0))
+        self._half = half
+        self.loops = {0: LoopSpec(inv, decreases=lambda L: L.right - L.left)}
+
+        def after_p(L, vc):
+            # instances of the additivity of MU (A6) at the cell boundaries the step uses
+            from contracts.spec_measure import additivity
+            g = vc.ghost
+            ax = g["ax"]
+            L0, R0, uh = half(L, g)
+            lo0, lol, him, hir = cell_lo(ax, L0), cell_lo(ax, L.left), cell_hi(ax, L.middle), cell_hi(ax, L.right)
+            vc.assume(additivity(lo0, lol, him))
+            vc.assume(additivity(lol, him, hir))
+        self.hints = {"p": after_p}
+
+    def configure(self, interp):
+        from pyvc import ctx
+        from contracts.spec_measure import MU
+
+        def mass(it, f, b):
+            ctx.PATH.check("sample_with_u -> model.mass::requires(a<=b)", b["a"] <= b["b"])
+            return MU(b["a"], b["b"])
+        interp.hooks["rpylib.model.levymodel.levymodel:LevyModel.mass"] = mass
+
+    def setup(self, vc, case):
+        from contracts.c01 import wf_grid, cell_lo, cell_hi
+        from contracts.spec_measure import MU, basic_axioms, additivity
+        grid, ax, h, o = wf_grid(vc)
+        basic_axioms(vc)
+        n = ax.length
+        lam, PL, u = vc.real("intensity"), vc.real("probability_of_the_left_half_axis"), vc.real("u")
+        left_mass, right_mass = MU(cell_lo(ax, 0), cell_hi(ax, o - 1)), MU(cell_lo(ax, o + 1), cell_hi(ax, n - 1))
+        vc.assume(And(lam > 0, u >= 0, u < 1, PL * lam == left_mass, lam == left_mass + right_mass))
+        model = vc.obj("rpylib.model.levymodel.levymodel:LevyModel")
+        smp = vc.obj(V + "binarysearchtreeadapted:BinarySearchTreeAdapted1D", model=model, grid=grid, axis=ax, intensity_of_jumps=lam, origin_coordinate=o,
+                     _proba_left_axis=PL, _coordinates_left_axis=(0, o - 1), _coordinates_right_axis=(o + 1, n - 1))
+        vc.ghost.update(ax=ax, o=o, lam=lam, PL=PL, u=u, h=h)
+        return dict(self=smp, u=u)
+
+    def ensures(self, result, self_=None, u=None):
+        from pyvc import ctx
+        from contracts.c01 import cell_lo, cell_hi
+        from contracts.spec_measure import MU
+        g = ctx.PATH.ghost
+        ax, o, lam, PL = g["ax"], g["o"], g["lam"], g["PL"]
+        n = ax.length
+        k = result + o                                   # index of the returned state
+        right_half = u > PL
+        L0 = If(right_half, o + 1, 0)
+        uh = If(right_half, u - PL, u)
+        before = MU(cell_lo(ax, L0), cell_lo(ax, k))      # mass of the cells of the half-axis before state k
+        return {"a-state-of-the-axis": And(k >= 0, k <= n - 1),
+                "never-the-origin": k != o,
+                "left-half-iff-u-at-most-its-probability": (k < o) == (u <= PL),
+                "state-exactly-on-a-u-interval-of-length-q_k-over-lambda": And(uh * lam <= before + MU(cell_lo(ax, k), cell_hi(ax, k)),
+                                                                             Or(k == L0, uh * lam > before))}
+
+    def replay(self, model, clause, case):
+        from contracts import battery
+        from rpylib.grid.spatial import CTMCUniformGrid
+        from rpylib.process.markovchain.markovchain import MarkovChainProcess
+        from rpylib.distribution.sampling import SamplingMethod
+        from rpylib.distribution.samplingfactory import create_q_vector
+        m = battery.models(("hem",))["hem"]
+        grid = CTMCUniformGrid(h=0.05, model=m)
+        pr = MarkovChainProcess(model=m, method=SamplingMethod.BINARYSEARCHTREEADAPTED1D, grid=grid)
+        s = pr.sampling
+        o = grid.origin_coordinate.value
+        q = create_q_vector(pr.model.levy_triplet.nu, grid) / pr.intensity_of_jumps
+        q[o] = 0.0
+        N = 40000
+        us = (np.arange(N) + 0.5) / N
+        out = np.array([int(s.sample_with_u(float(x))) + o for x in us])
+        if out.min() < 0 or out.max() >= len(q) or np.any(out == o):
+            return (True, {"model": "hem", "returned_indices_range": [int(out.min()), int(out.max())], "origin": int(o)})
+        freq = np.bincount(out, minlength=len(q)) / N
+        k = int(np.argmax(np.abs(freq - q)))
+        return (bool(abs(freq[k] - q[k]) > 3.0 / N), {"model": "hem", "state": k - o, "share_of_the_uniform_grid": float(freq[k]), "target": float(q[k])})
+
+
+UNITS = [BinarySearchTreeSampler(), HuffmanSampler(), AliasSampler(), InversionSampler(), InversionOverTheStatesManager(), AdaptedBisection1D()]
 ASSUMPTIONS = ["A1: floats are mathematical reals (the alias method's comment about p = 1.0 arriving as 0.999999 is a floating-point concern outside this model)",
                "the number of states is enumerated (K = 2, 3, 4, with and without zero entries): complete in the probabilities and in the uniform, bounded in K",
                "the table method (32 random bits) and the adapted bisection samplers are covered only by the bounded native battery"]
